@@ -13,7 +13,7 @@ from ..gen import corpus, model
 from ..mjconst import E
 
 LEVEL = "exploration"
-RULE = ("models: generated MJCF (rich/contact/kin profiles, post-processed with geom groups 0..5, materials, alpha-0 geoms, "
+RULE = ("models: generated MJCF (rich/contact/kin profiles, post-processed with geom groups -2..9 (outside 0..5 is legal and clamped), materials, alpha-0 geoms, "
         "finite and infinite planes on the world and on static child bodies, sites, cameras, lights) and small shipped corpus "
         "models (tendons, flex, skins, plugins); states: reset, random state, after stepping (contacts). For every (model, "
         "state, option vector) the needed geom count N is measured on a large scene and mjv_updateScene is run on a FRESH "
@@ -81,7 +81,7 @@ def _decorate(xml, rng):
     for g in wb.iter("geom"):
         r = rng.random()
         if r < 0.45:
-            g.set("group", str(int(rng.integers(0, 6))))
+            g.set("group", str(int(rng.integers(-2, 10))))
         r = rng.random()
         if r < 0.10:
             g.set("rgba", "0.3 0.3 0.3 0")                       # invisible through its own rgba
@@ -100,7 +100,7 @@ def _decorate(xml, rng):
     for j in range(int(rng.integers(1, 4))):
         a = dict(nopl, type="plane", name="vplane%d" % j, size=kinds[int(rng.integers(0, 4))],
                  pos=model.f(rng.normal(size=3) * 0.7 - [0, 0, 1.0]), quat=model.f(model.rquat(rng)),
-                 group=str(int(rng.integers(0, 6))))
+                 group=str(int(rng.integers(-2, 10))))
         if rng.random() < 0.5:
             a["material"] = "vm_solid"
         host = wb
@@ -108,7 +108,7 @@ def _decorate(xml, rng):
             host = ET.SubElement(wb, "body", {"name": "vstatic%d" % j, "pos": model.f(rng.normal(size=3) * 0.3)})
             ET.SubElement(host, "site", {"name": "vsite%d" % j, "type": "box", "size": "0.02 0.03 0.01"})
             ET.SubElement(host, "geom", dict(nopl, name="vsgeom%d" % j, type="box", size="0.05 0.02 0.03",
-                                             group=str(int(rng.integers(0, 6)))))
+                                             group=str(int(rng.integers(-2, 10)))))
         ET.SubElement(host, "geom", a)
     if rng.random() < 0.6:
         ET.SubElement(wb, "light", {"pos": "0 0 3", "dir": "0 0 -1"})
